@@ -269,7 +269,9 @@ Definition add_schema (s : ost) (d : schema) : ost * oclass :=
 Inductive query :=
 | QNs (t : tm)               (* resid.NewGvk -> IsCertainlyClusterScoped, when a resource is loaded *)
 | QSchema (t : tm)           (* walk.go:125 SchemaForResourceType, when a strategic-merge patch is applied *)
-| QSub (fver : option string) (sch : option schema).   (* a sub-kustomization is loaded: SetSchema(..., false) *)
+| QSub (fver : option string) (sch : option schema)    (* a sub-kustomization is loaded: SetSchema(..., false) *)
+| QFail.                     (* the build fails here for a reason unrelated to the schema (missing resource file, patch
+                                without target, ...): Run returns the error, nothing else happens to the globals *)
 
 Inductive answer :=
 | ANs (cluster_scoped : bool)
@@ -300,6 +302,7 @@ Fixpoint run_queries (e : env) (s : ost) (qs : list query) : ost * oclass * list
           | COk => let '(s2, c2, l) := run_queries e s1 t in (s2, c2, ASchema r :: l)
           | _ => (s1, c, [])
           end
+      | QFail => (s, CErr, [])
       | QSub fv sc =>
           let '(s1, c) := set_schema s fv sc false in
           match c with
@@ -328,6 +331,6 @@ Definition observe (e : env) (s : ost) (b : build) : oclass * list answer :=
 Definition default_field (fv : option string) (sc : option schema) : bool :=
   negb (is_some sc) && match fv with None => true | Some v => is_default_ver v end.
 Definition default_query (q : query) : bool :=
-  match q with QSub fv sc => default_field fv sc | _ => true end.
+  match q with QSub fv sc => default_field fv sc | QFail => false | _ => true end.
 Definition default_build (b : build) : bool :=
   default_field (b_ver b) (b_schema b) && forallb default_query (b_queries b).
